@@ -1148,6 +1148,125 @@ def evaluate_registration(ctx):
         n += 1
 
 
+# ---- a unit that inherited an action through its copied context and outlives everything else that refers to it -----
+
+def run_inherited(case):
+    """`carrier`: how the child unit got its context - an asyncio task created inside the block (`task`), a thread running
+    `contextvars.copy_context().run` (`thread`), `action.run` handed to a thread (`run`), `with action.context():` in a thread
+    (`context`).  `order`: `child-first` = the child logs both messages while the block is still open; `parent-first` = the
+    creating function has returned (the block is left, no name refers to the action any more, the garbage collector has
+    run) before the child logs its second message.  What the child sees must not depend on that."""
+    import asyncio
+    import contextvars
+    import gc
+    import threading
+    from eliot import MemoryLogger, start_action, log_message, current_action
+    from eliot.testing import swap_logger
+
+    carrier, order = case["carrier"], case["order"]
+    lg = MemoryLogger()
+    prev = swap_logger(lg)
+    seen = []
+    problems = []
+
+    def note(tag):
+        a = current_action()
+        seen.append((tag, None if a is None else (a.task_uuid, a._task_level.as_list())))
+
+    try:
+        if carrier == "task":
+            async def child(go):
+                note("child:1"); log_message(message_type="bg:one")
+                await go.wait()
+                note("child:2"); log_message(message_type="bg:two")
+
+            async def handler(go):
+                with start_action(action_type="request"):
+                    t = asyncio.ensure_future(child(go))
+                    await asyncio.sleep(0)          # the child runs up to its wait
+                    if order == "child-first":
+                        go.set()
+                        await t
+                return t
+
+            async def main():
+                go = asyncio.Event()
+                t = await handler(go)
+                gc.collect()
+                go.set()
+                await asyncio.wait_for(t, TIMEOUT)
+
+            asyncio.run(main())
+        else:
+            go, at_wait = threading.Event(), threading.Event()
+
+            def child():
+                note("child:1"); log_message(message_type="bg:one")
+                at_wait.set()
+                if not go.wait(TIMEOUT):
+                    problems.append("child was never released")
+                note("child:2"); log_message(message_type="bg:two")
+
+            def in_ctx(action):
+                with action.context():
+                    child()
+
+            def handler():
+                with start_action(action_type="request") as action:
+                    if carrier == "thread":
+                        t = threading.Thread(target=contextvars.copy_context().run, args=(child,), daemon=True)
+                    elif carrier == "run":
+                        t = threading.Thread(target=action.run, args=(child,), daemon=True)
+                    else:
+                        t = threading.Thread(target=in_ctx, args=(action,), daemon=True)
+                    t.start()
+                    at_wait.wait(TIMEOUT)
+                    if order == "child-first":
+                        go.set()
+                        t.join(TIMEOUT)
+                return t
+
+            t = handler()
+            gc.collect()
+            go.set()
+            t.join(TIMEOUT)
+            if t.is_alive():
+                problems.append("child thread did not finish")
+    except BaseException as e:  # noqa
+        problems.append("scenario raised %s: %s" % (type(e).__name__, str(e)[:120]))
+    finally:
+        swap_logger(prev)
+    start = [m for m in lg.messages if m.get("action_type") == "request" and m.get("action_status") == "started"]
+    bg = [(m.get("message_type"), m.get("task_uuid"), list(m.get("task_level") or [])) for m in lg.messages if str(m.get("message_type", "")).startswith("bg:")]
+    return dict(seen=seen, start=[(m["task_uuid"], list(m["task_level"])) for m in start], bg=bg, problems=problems)
+
+
+def check_inherited(ctx, case, obs):
+    key = {"component": "inherited-context"}
+    if obs["problems"] or len(obs["start"]) != 1:
+        ctx.violation("inherited-context scenario did not run: %s" % (obs["problems"] or obs["start"]), case, key=key)
+        return
+    uuid, lvl = obs["start"][0]
+    act_level = lvl[:-1]
+    for tag, cur in obs["seen"]:
+        if cur is None or cur[0] != uuid or cur[1] != act_level:
+            ctx.violation("a unit that inherited the action %s through its context (%s) sees current_action() = %s at %s (order: %s)"
+                          % ((uuid, act_level), case["carrier"], cur, tag, case["order"]), case, key=key)
+            return
+    if [b[0] for b in obs["bg"]] != ["bg:one", "bg:two"] or any(b[1] != uuid or b[2][:-1] != act_level for b in obs["bg"]):
+        ctx.violation("messages logged by a unit that inherited the action %s are attributed to %s (order: %s)"
+                      % ((uuid, act_level), obs["bg"], case["order"]), case, key=key)
+
+
+def evaluate_inherited(ctx):
+    for carrier in ("task", "thread", "run", "context"):
+        for order in ("child-first", "parent-first"):
+            case = dict(kind="inherited", carrier=carrier, order=order)
+            obs = run_inherited(case)
+            ctx.case(case, nontrivial=order == "parent-first", tags=["inherited", "inherited:" + carrier])
+            check_inherited(ctx, case, obs)
+
+
 def small_programs():
     """<= 2 units, <= 3 steps each inside the fork; every interleaving is run"""
     progs = []
@@ -1195,6 +1314,7 @@ def small_programs():
 def run(ctx):
     evaluate_extractors(ctx)
     evaluate_registration(ctx)
+    evaluate_inherited(ctx)
     rng = ctx.rng("gen")
     # exhaustive part
     cases = []
@@ -1237,6 +1357,11 @@ def replay(ctx, obj):
         obs = run_registration(case)
         print(obs)
         check_registration(ctx, case, obs)
+        return
+    if case.get("kind") == "inherited":
+        obs = run_inherited(case)
+        print(obs)
+        check_inherited(ctx, case, obs)
         return
     if case.get("kind") == "extractor":
         ref = run_extractor(dict(case, sched="A;B"))
